@@ -170,14 +170,16 @@ def iptLine (st : IptSt) (raw : Str) : Res IptSt :=
   | [] => .ok st
   | c :: rest =>
     if c = '*' then
-      .ok { tables := setTable st.tables { name := rest, chains := [] }, cur := true, curName := rest, app := false }
+      if st.tables.any (fun x => x.name = rest) then .diag (lit "Duplicate definition of table " ++ quote rest)
+      else .ok { tables := setTable st.tables { name := rest, chains := [] }, cur := true, curName := rest, app := false }
     else if c = ':' then
       if ¬ st.cur then .diag (lit "Found chain policy outside of table: " ++ quote line)
       else
         match fields rest with
         | n :: p :: _ =>
           let t := getTable st.tables st.curName
-          .ok { st with tables := setTable st.tables { t with chains := setChain t.chains { name := n, policy := p, rules := [] } } }
+          if t.chains.any (fun x => x.name = n) then .diag (lit "Duplicate definition of chain " ++ quote n)
+          else .ok { st with tables := setTable st.tables { t with chains := setChain t.chains { name := n, policy := p, rules := [] } } }
         | _ => .ok st
     else if c = '-' then
       if ¬ st.cur then .diag (lit "Found rule outside of table: " ++ quote line)
